@@ -107,7 +107,7 @@ def classify(res, fns, unit_name='unit'):
         f['fn'] = f'{cand["mod"]}::{cand["name"]}' + ('' if cand['variant'] in ('main',) else f'#{cand["variant"]}' + (f':{cand["probe"]}' if cand.get('probe') else ''))
         lab = None
         labs = []
-        if 'postcondition' in f['message']:
+        if 'postcondition' in f['message'] and 'closure' not in f['message']:
             for (a, b, prim, _) in f['spans']:
                 for L in cand['labels']:
                     if L['span'][0] <= a < L['span'][1]:
